@@ -2,22 +2,133 @@
 from __future__ import annotations
 
 from ..engine import monitors, suite
-from ..runner import Env, Outcome
+from ..engine import rebuild as rebuild_mod
+from ..runner import Divergence, Driver, Env, Outcome, diff_streams
 
-THEOREMS = ["C11_replay_invariant", "C11_rebuilt_wellformed", "C11_log_grows_only_by_drain"]
+THEOREMS = ["C11_replay_invariant", "C11_rebuilt_wellformed", "C11_log_grows_only_by_drain",
+            # timestamps aside: the real rebuild_state_from_ticks (replay at the clock of the call), every start state
+            "C11_time_erasure", "C11_rebuild_agrees_with_live", "C11_erasure_keeps", "C11_erasure_is_agreement",
+            "C11_reduce_commutes_with_erasure", "C11_rewind_serialise_commute_with_erasure",
+            # the public views are functions of the rebuilt state and describe the live run
+            "C11_running_steps_describe_run", "C11_to_dict_describes_run",
+            # the guard on the retry policy is needed
+            "C11_refuted_elapsed_time_policy",
+            # resumed runs; rewind on start
+            "C11_resumed_runs", "C11_rewind_keeps", "C11_refuted_rewind_idempotent", "C11_rewind_idempotent_partial",
+            # the recording discipline over whole histories, tied to the source
+            "C11_log_is_reduced_ticks", "C11_drain_records_what_it_reduces", "C11_source_shape"]
 LEAN_TARGETS = ["WfProps.C11"]
 EXPLANATION = (
-    "Runner LTS: at every point of every run (any schedule, results, external ticks) the live reducer state equals "
-    "the replay of the logged (tick, time) pairs from the rewound initial state; the log grows by exactly the processed "
-    "tick in drain and by nothing else; the rebuilt state satisfies the slot invariant. Tie: runner correspondence. "
-    "Search (this is where the real rebuild_state_from_ticks, which replays with the *current* clock, is exercised): "
-    "after every tick of every generated run the state rebuilt by the real function from the adapter's tick log is "
-    "compared with the live state, timestamps erased; ctx.to_dict() snapshots are compared with the live state."
+    "Runner LTS, recorded times: at every point of every run (any start state, schedule, results, external ticks) the live reducer "
+    "state equals the replay of the logged (tick, time) pairs from the rewound initial state; over whole histories the log is exactly "
+    "the sequence of ticks popped off the buffer and reduced (each once, in order, nothing recorded for a raising reduction); the rebuilt "
+    "state satisfies the slot invariant. Timestamps aside (the real rebuild_state_from_ticks replays at the clock of the call): for every "
+    "start state incl. resumed ones, every schedule and every pair of clocks the rebuild does not raise and equals the live state after "
+    "blanking every first_attempt_at (eraseSt), for retry policies that do not read the elapsed time; reducer, rewind and serialisation "
+    "commute with the erasure; running_steps() and to_dict() of the rebuilt state describe the live run (and list the step of every live "
+    "worker task); sessions of any number of resume legs; what rewind-on-start keeps and that it is not idempotent (idempotent when no "
+    "step has more than one worker). Without the guard the clause is refuted by a concrete run (stop_after_delay). Source shape: the "
+    "recording order of _process_tick, the writers of self.state, the shape of rebuild_state_from_ticks, on_tick/replay/init_state of "
+    "plugins/basic.py and _state/running_steps/to_dict of external_context.py are re-extracted on every run. Tie: reducer pairs, runner "
+    "correspondence (incl. the adapter's tick log), and the real ExternalContext over prefixes of each recorded log at chosen clocks "
+    "against the model's replayTicks/activeSteps/roundtrip. Search: after every tick of every generated run the state rebuilt by the real "
+    "function from the adapter's tick log is compared with the live state, timestamps erased; ctx.to_dict() snapshots and, at sampled "
+    "prefixes, running_steps()/to_dict() of the real ExternalContext are compared with the live state."
 )
 ASSUMPTIONS = suite.ENGINE_ASSUMPTIONS + [
-    "replay with a different clock equals the live state only 'timestamps aside' and only for policies that do not depend on elapsed time: "
-    "stated as C11_time_erasure_statement, not proved; generated policies are attempt-based",
+    "replay with a different clock equals the live state only 'timestamps aside' and only for policies that do not depend on elapsed time "
+    "(TimeFree): proved under that guard (C11_rebuild_agrees_with_live), refuted without it (C11_refuted_elapsed_time_policy, reproduced on "
+    "the real code: to_dict() of a run that failed through stop_after_delay says is_running=True; OPEN known finding "
+    "C11/replay_redecides_elapsed_time_policy); generated policies of the other streams are attempt-based; in the elapsed-time family a difference "
+    "is classified as the known finding only when a policy that stops by elapsed time was answered differently in the rebuild AND the model under "
+    "the rebuild's answers equals the real rebuild AND the model under the live answers equals the live run (rebuild.redecided); for specs with "
+    "such a policy the views use only clocks not earlier than the recorded ticks",
+    "what a caller of the live handler saw after the k-th tick is reproduced after the run through an adapter that shows the real "
+    "ExternalContext the first k ticks of the recorded log (the log is append-only: GenTickLog.ticksWrites)",
 ]
+
+
+def _views(env: Env, out: Outcome, traces: list, label: str, rng, monitor: bool = True, case_of=None) -> None:
+    """the real ExternalContext (`_state`, `running_steps()`, `to_dict()`) over prefixes of each recorded run, at a chosen clock:
+    (K) against the model's `replayTicks` / `activeSteps` / `roundtrip` (driver ops rbclear/rbtick/rebuild),
+    (S) against the live state after that many ticks (`monitor=False`: elapsed-time policies, outside the proved guard)."""
+    from ..engine import rebuild
+
+    ops: list[str] = []
+    exp: list[str] = []
+    owner: list[tuple[int, int, int]] = []
+    for i, tr in enumerate(traces):
+        ticks = rebuild.logged_ticks(tr)
+        if ticks is None or tr.outcome[0] in ("invalid", "runaway") or len(ticks) > 300:
+            continue
+        states = rebuild.live_states(tr)
+        end = int(getattr(tr, "end_time", 0) or 1000)
+        if env.replay is not None:
+            ks = rebuild.pick_prefixes(rng, len(ticks), 1)
+        elif rng.random() >= 0.34:
+            ks = []  # every third run is looked at (the per-tick rebuild of mon_c11 looks at all of them)
+        elif env.tier == "thorough":
+            ks = rebuild.pick_prefixes(rng, len(ticks), 1)  # the whole log and one prefix of it
+        else:
+            ks = [len(ticks) if rng.random() < 0.5 else rng.randint(0, len(ticks))]  # quick: one point
+        want = ((env.replay or {}).get("payload", {}).get("case") or {})
+        if isinstance(want, dict) and isinstance(want.get("resume", want).get("prefix"), int):
+            ks = sorted(set(ks) | {min(want.get("resume", want)["prefix"], len(ticks))})
+        for k in ks:
+            clock = rng.choice([end, end, end + rng.randint(1, 60), rng.randint(0, 3000), 0])
+            if rebuild.elapsed_stop_steps(tr.spec):
+                # a policy that stops by elapsed time makes the rebuild depend on its clock (known finding): only clocks a real
+                # caller can have, i.e. not before the ticks were recorded (an earlier clock makes the rebuild give up where the
+                # live run retried, which no caller of a live handler can observe)
+                clock = rng.choice([end, end + rng.randint(1, 60), end + 1000])
+            if isinstance(want, dict) and want.get("resume", want).get("prefix") == k and isinstance(want.get("resume", want).get("clock"), int):
+                clock = want.get("resume", want)["clock"]  # replaying a recorded case: its clock
+            obs = rebuild.observe(tr, k, clock)
+            out.evaluations += 1
+            out.count(f"view:{label}:prefix:" + ("full" if k == len(ticks) else "empty" if k == 0 else "mid"))
+            out.count(f"view:{label}:clock:" + ("end_of_run" if clock == end else "zero" if clock == 0 else "later" if clock > end else "earlier"))
+            if "error" in obs:
+                out.count(f"view:{label}:raised")
+            else:
+                out.count(f"view:{label}:running_steps:{min(len(obs['running_steps']), 3)}")
+                if obs["oracle"]:
+                    out.count(f"view:{label}:policy_consulted_during_rebuild")
+                if states is not None and k < len(states):
+                    same = obs["state"].is_running == states[k].is_running
+                    out.count(f"view:{label}:is_running_" + ("agrees" if same else "DIFFERS_from_live"))
+                if obs["running_steps"] or k not in (0, len(ticks)):
+                    out.nontrivial(("view", label, repr(tr.spec), tuple(tr.actions), k, clock))
+            if monitor:
+                for v in rebuild.classify_views(tr, obs, rebuild.mon_views(tr, obs)):
+                    if case_of is not None:
+                        v.replay = case_of(tr, v.replay)
+                    out.violations.append(v)
+            o, e = rebuild.rebuild_lines(tr, obs)
+            ops += o
+            exp += e
+            owner += [(i, k, clock)] * len(o)
+    if not ops:
+        return
+    try:
+        mo = Driver("engine").run(ops)
+    except Exception as ex:
+        out.divergences.append(Divergence("engine-rebuild", 0, "<driver>", repr(ex), ""))
+        return
+    out.traces_validated += len(traces)
+    out.disagreements_checked += len(ops)
+    d = diff_streams("engine-rebuild", ops, mo, exp)
+    if d is not None:
+        i, k, clock = owner[d.index] if d.index < len(owner) else (None, None, None)
+        a, b = d.model_out, d.impl_out
+        j = 0
+        while j < min(len(a), len(b)) and a[j] == b[j]:
+            j += 1
+        d.model_out = a[max(0, j - 300): j + 400]
+        d.impl_out = b[max(0, j - 300): j + 400]
+        d.op = d.op[:1500]
+        if i is not None:
+            d.context = {"spec": traces[i].spec, "actions": traces[i].actions, "prefix": k, "clock": clock, "stream": label}
+        out.divergences.append(d)
 
 
 def _resumed_runs(env: Env, out: Outcome, n: int) -> None:
@@ -46,6 +157,7 @@ def _resumed_runs(env: Env, out: Outcome, n: int) -> None:
             spec["snapshot_after_end"] = True
         jobs.append((spec, rng.randrange(1 << 30), None, None))
     resumed = []
+    cases: dict = {}
     for spec, seed, a1, a2 in jobs:
         tr1 = live.run_spec(spec, seed=seed, replay_actions=a1)
         out.evaluations += 1
@@ -65,19 +177,23 @@ def _resumed_runs(env: Env, out: Outcome, n: int) -> None:
         spec2["_resumed"] = True
         tr2 = live.run_spec(spec2, seed=seed + 1, replay_actions=a2, resume_from=d)
         resumed.append(tr2)
+        cases[id(tr2)] = {"spec": spec, "seed": seed, "actions1": tr1.actions, "actions2": tr2.actions}
         out.count("resume:outcome:" + tr2.outcome[0])
         if pend:
             out.nontrivial(("resume", kind, repr(spec), tuple(tr1.actions)))
-        for v in monitors.mon_c11(tr2):
+        for v in rebuild_mod.mon_c11_classified(tr2):
             v.replay = {"resume": {"spec": spec, "seed": seed, "actions1": tr1.actions, "actions2": tr2.actions}}
             out.violations.append(v)
     suite.runner_corr(out, resumed, "engine-runner-resumed")
+    _views(env, out, resumed, "resumed", rng,
+           case_of=lambda tr, c: {"resume": dict(cases[id(tr)], prefix=c.get("prefix"), clock=c.get("clock"))})
 
 
 def run(env: Env) -> Outcome:
     out = Outcome()
     out.rule = ("live scripted workflows incl. snapshots; after every processed tick the real rebuild_state_from_ticks is compared with the live state; "
-                "non-trivial = more than 2 ticks; distinct by (spec, schedule)")
+                "non-trivial = more than 2 ticks; distinct by (spec, schedule); views: the real ExternalContext over a prefix of the recorded log at a "
+                "chosen clock, non-trivial = a proper prefix or something in progress, distinct by (spec, schedule, prefix, clock)")
     suite.direct_corr(env, out, env.budget(1500, 30000))
     def attempt_based(spec: dict, rng) -> dict:
         for st in spec["steps"]:
@@ -86,7 +202,11 @@ def run(env: Env) -> Outcome:
                 st["retry"] = {"kind": "attempts", "n": 3, "wait": st["retry"].get("wait", 0)}
         return spec
 
-    suite.live_runs(env, out, env.budget(250, 5000), [monitors.mon_c11], extra_specs=suite.load_corpus("C11"), mutate_spec=attempt_based)
+    import random as _random
+
+    vrng = _random.Random(env.seed * 7919 + 11)  # own stream: the runs generated below stay what they were per seed
+    trs = suite.live_runs(env, out, env.budget(250, 5000), [rebuild_mod.mon_c11_classified], extra_specs=suite.load_corpus("C11"), mutate_spec=attempt_based)
+    _views(env, out, trs, "general", vrng)
 
     def many_snapshots(spec: dict, rng) -> dict:
         # several ctx.to_dict() calls on one live handler, at different quiet points (work in flight in between)
@@ -98,7 +218,26 @@ def run(env: Env) -> Outcome:
             spec.setdefault("externals", []).append({"op": "snapshot", "after_quiet": rng.randint(0, 6)})
         return spec
 
-    suite.live_runs(env, out, env.budget(120, 2400), [monitors.mon_c11], gen_kwargs={"family": "fanin"}, mutate_spec=many_snapshots)
-    suite.live_runs(env, out, env.budget(80, 1600), [monitors.mon_c11], gen_kwargs={"family": "retry"}, mutate_spec=many_snapshots)
+    trs = suite.live_runs(env, out, env.budget(120, 2400), [rebuild_mod.mon_c11_classified], gen_kwargs={"family": "fanin"}, mutate_spec=many_snapshots)
+    _views(env, out, trs, "fanin", vrng)
+    trs = suite.live_runs(env, out, env.budget(80, 1600), [rebuild_mod.mon_c11_classified], gen_kwargs={"family": "retry"}, mutate_spec=many_snapshots)
+    _views(env, out, trs, "retry", vrng)
     _resumed_runs(env, out, env.budget(120, 2400))
+
+    def elapsed_time_policy(spec: dict, rng) -> dict:
+        # OUTSIDE the proved guard (C11_refuted_elapsed_time_policy): every retry policy gives up by elapsed time (stop_after_delay).
+        # Monitored with a classification: a difference between rebuilt and live state that is explained by a retry decision taken
+        # differently at the rebuild's clock is the KNOWN finding C11/replay_redecides_elapsed_time_policy (rebuild.redecided);
+        # any other difference keeps the generic signatures.  How often the rebuilt running flag differs is counted as well.
+        for st in spec["steps"]:
+            if st.get("retry") is not None:
+                st["retry"] = {"kind": "delay", "d": rng.choice([2, 5, 7]), "wait": rng.choice([1, 2, 3])}
+        spec.pop("timeout", None)
+        return spec
+
+    trs = suite.live_runs(env, out, env.budget(24, 480), [rebuild_mod.mon_c11_classified], gen_kwargs={"family": "retry"}, mutate_spec=elapsed_time_policy)
+    _views(env, out, trs, "elapsed_time_policy", vrng)
+    for v in out.violations:
+        if v.signature.startswith(rebuild_mod.KNOWN):
+            out.count("known:" + v.signature)
     return out
